@@ -27,6 +27,7 @@ type Net struct {
 	Inline   bool // zero-latency network: the broker answers inside Write
 	OnLost   func(l *Link, dir string, m message.Message)
 	OnDial   func(l *Link)
+	DialTimes []time.Duration
 	InlineHandshake bool // only the connect handshake of new links is zero-latency
 	HandshakeCut    int  // the next n links die when the broker receives their ConnectRequest
 	inlineMu sync.Mutex
@@ -61,6 +62,14 @@ type Link struct {
 	clientClosed bool
 	blackhole    bool // peer silently gone: writes succeed, nothing is delivered
 	dieOnConnect bool // handshake-cut fault
+
+	// keepalive latency model (C15): pings are answered by a bubble timer after pongDelay,
+	// exactly, whatever the scheduler's step size; no pong is sent at or after pongSilentAt
+	pongModel    bool
+	pongDelay    time.Duration
+	pongSilentAt time.Duration // <0: never silent
+	PingLog      []pingRec     // pings written by the client (id, time)
+	PongLog      []pingRec     // pongs written by the client (for broker pings)
 
 	txBytes, rxBytes uint64
 	txFrames         int
@@ -109,6 +118,10 @@ func (n *Net) Dial(cfg transport.DialConfig) (transport.Transport, error) {
 		l.dieOnConnect = true
 	}
 	n.Links = append(n.Links, l)
+	n.DialTimes = append(n.DialTimes, s.Now())
+	if n.OnDial != nil {
+		n.OnDial(l)
+	}
 	return l, nil
 }
 
@@ -154,6 +167,35 @@ func (l *Link) Write(b []byte) error {
 		}
 		s.mu.Unlock()
 		return nil
+	}
+	if l.pongModel {
+		if m, err := l.decode(b); err == nil {
+			switch x := m.(type) {
+			case *message.Ping:
+				now := s.Now()
+				l.PingLog = append(l.PingLog, pingRec{uint32(x.RequestID), now})
+				if l.pongSilentAt < 0 || now+l.pongDelay < l.pongSilentAt {
+					pong, _ := l.encode(&message.Pong{RequestID: x.RequestID})
+					time.AfterFunc(l.pongDelay, func() {
+						s.mu.Lock()
+						ok := !l.isDead && !l.clientClosed
+						s.mu.Unlock()
+						if ok {
+							select {
+							case l.rx <- pong:
+							default:
+							}
+						}
+					})
+				}
+				s.mu.Unlock()
+				return nil
+			case *message.Pong:
+				l.PongLog = append(l.PongLog, pingRec{uint32(x.RequestID), s.Now()})
+				s.mu.Unlock()
+				return nil
+			}
+		}
 	}
 	l.c2b = append(l.c2b, cframe{append([]byte(nil), b...), s.Now()})
 	inline := l.net.Inline || (l.net.InlineHandshake && (l.bc == nil || !l.bc.Connected))
